@@ -48,7 +48,7 @@ static std::string jn(double v) {
   snprintf(t, sizeof t, "%.17g", v);
   return t;
 }
-static std::string jpolys(const Polygons& p, size_t cap = 400) {
+static std::string jpolys(const Polygons& p, size_t cap = 8000) {
   std::string s = "[";
   size_t n = 0;
   for (size_t i = 0; i < p.size(); i++) {
@@ -78,6 +78,21 @@ static std::string demangle(const char* n) {
   std::string s = (st == 0 && d) ? d : n;
   free(d);
   return s;
+}
+
+// VERIF_DUMP=<file>: on a violation in the valid stage, also write the full
+// input as text (epsilon, ring count, then per ring: size and x y lines)
+static void dumpText(const Polygons& polys, double eps) {
+  const char* path = getenv("VERIF_DUMP");
+  if (!path) return;
+  FILE* f = fopen(path, "w");
+  if (!f) return;
+  fprintf(f, "%.17g %zu\n", eps, polys.size());
+  for (auto& sp : polys) {
+    fprintf(f, "%zu\n", sp.size());
+    for (auto& v : sp) fprintf(f, "%.17g %.17g\n", v.x, v.y);
+  }
+  fclose(f);
 }
 
 // ------------------------------------------------------- constructed polygons
@@ -128,9 +143,12 @@ static Contour shapeStar(vh::Rng& r, int n) {
 static Contour shapeConvex(vh::Rng& r, int n) {
   Contour c;
   c.kind = "convex";
+  // strictly increasing angles with every gap < pi (jitter j: 2 pi (1+2j)/n < pi)
+  // => strictly convex and the origin strictly inside
   double bx = r.uni(0.3, 1.0), by = r.uni(0.3, 1.0);
+  const double j = n <= 4 ? 0.2 : 0.3;
   for (int i = 0; i < n; i++) {
-    double a = kTwoPiH * (i + r.uni(-0.3, 0.3)) / n;
+    double a = kTwoPiH * (i + r.uni(-j, j)) / n;
     c.p.push_back(vec2(bx * std::cos(a), by * std::sin(a)));
   }
   c.interior = vec2(0.0);
@@ -246,6 +264,129 @@ static Contour makeShape(vh::Rng& r, int kind, int n) {
   for (auto& v : c.p) v = map(v);
   c.interior = map(c.interior);
   return c;
+}
+
+
+// ---------------------------------------------------- exact validity re-check
+// The construction arguments above are re-checked on every generated set
+// with exact arithmetic (floating-point expansions): no two non-adjacent edges
+// of any contours meet, adjacent edges do not fold back, every contour's
+// nesting depth parity matches its orientation. A failure is a HARNESS bug: the
+// case is dropped and the run is marked inconclusive.
+static inline void twoSum(double a, double b, double& s, double& e) {
+  s = a + b;
+  double bb = s - a;
+  e = (a - (s - bb)) + (b - bb);
+}
+static inline void twoProd(double a, double b, double& p, double& e) {
+  p = a * b;
+  e = std::fma(a, b, -p);
+}
+// sign of the exact value of sum(t[0..n))
+static int signOfSum(const double* t, int n) {
+  double h[32];
+  int m = 0;
+  for (int i = 0; i < n; i++) {
+    double Q = t[i];
+    int k = 0;
+    for (int jx = 0; jx < m; jx++) {
+      double S, e;
+      twoSum(Q, h[jx], S, e);
+      if (e != 0) h[k++] = e;
+      Q = S;
+    }
+    if (Q != 0) h[k++] = Q;
+    m = k;
+  }
+  if (m == 0) return 0;
+  return h[m - 1] > 0 ? 1 : -1;
+}
+// exact orientation of (a,b,c): sign of ax*by - ax*cy - ay*bx + ay*cx + bx*cy - by*cx
+static int orientExact(vec2 a, vec2 b, vec2 c) {
+  double det = (b.x - a.x) * (c.y - a.y) - (b.y - a.y) * (c.x - a.x);
+  double mag = (std::abs(b.x - a.x) + std::abs(a.x) * 2e-16) * (std::abs(c.y - a.y) + std::abs(a.y) * 2e-16) +
+               (std::abs(b.y - a.y) + std::abs(a.y) * 2e-16) * (std::abs(c.x - a.x) + std::abs(a.x) * 2e-16);
+  if (std::abs(det) > 1e-14 * mag + 8e-16 * (std::abs(a.x) + std::abs(b.x) + std::abs(c.x)) * (std::abs(a.y) + std::abs(b.y) + std::abs(c.y)))
+    return det > 0 ? 1 : -1;
+  double t[12];
+  twoProd(a.x, b.y, t[0], t[1]);
+  twoProd(-a.x, c.y, t[2], t[3]);
+  twoProd(-a.y, b.x, t[4], t[5]);
+  twoProd(a.y, c.x, t[6], t[7]);
+  twoProd(b.x, c.y, t[8], t[9]);
+  twoProd(-b.y, c.x, t[10], t[11]);
+  return signOfSum(t, 12);
+}
+static bool inBox(vec2 a, vec2 b, vec2 c) {
+  return std::min(a.x, b.x) <= c.x && c.x <= std::max(a.x, b.x) && std::min(a.y, b.y) <= c.y && c.y <= std::max(a.y, b.y);
+}
+// closed segments ab and cd have a common point
+static bool segsMeet(vec2 a, vec2 b, vec2 c, vec2 d) {
+  if (std::max(a.x, b.x) < std::min(c.x, d.x) || std::max(c.x, d.x) < std::min(a.x, b.x) || std::max(a.y, b.y) < std::min(c.y, d.y) ||
+      std::max(c.y, d.y) < std::min(a.y, b.y))
+    return false;
+  int o1 = orientExact(a, b, c), o2 = orientExact(a, b, d), o3 = orientExact(c, d, a), o4 = orientExact(c, d, b);
+  if (o1 != o2 && o3 != o4) return true;
+  if (o1 == 0 && inBox(a, b, c)) return true;
+  if (o2 == 0 && inBox(a, b, d)) return true;
+  if (o3 == 0 && inBox(c, d, a)) return true;
+  if (o4 == 0 && inBox(c, d, b)) return true;
+  return false;
+}
+// exact point-in-polygon (q not on the boundary): crossing number with a ray to +x
+static bool insideExact(vec2 q, const std::vector<vec2>& p) {
+  bool in = false;
+  for (size_t i = 0; i < p.size(); i++) {
+    vec2 a = p[i], b = p[(i + 1) % p.size()];
+    if ((a.y > q.y) == (b.y > q.y)) continue;
+    // edge crosses the horizontal line through q: is the crossing right of q?
+    int o = a.y < b.y ? orientExact(a, b, q) : orientExact(b, a, q);
+    if (o > 0) in = !in;  // q strictly left of the upward edge
+  }
+  return in;
+}
+struct RingRef {
+  const std::vector<vec2>* p;
+  bool hole;
+};
+static std::string validateExact(const std::vector<RingRef>& rings) {
+  struct E { vec2 a, b; int ring, i, n; };
+  std::vector<E> es;
+  for (size_t r = 0; r < rings.size(); r++) {
+    const auto& p = *rings[r].p;
+    if (p.size() < 3) return "ring with < 3 vertices";
+    for (size_t i = 0; i < p.size(); i++) es.push_back({p[i], p[(i + 1) % p.size()], (int)r, (int)i, (int)p.size()});
+  }
+  // sweep over x to keep the pair count down
+  std::vector<int> ord(es.size());
+  for (size_t i = 0; i < ord.size(); i++) ord[i] = (int)i;
+  std::sort(ord.begin(), ord.end(), [&](int x, int y) { return std::min(es[x].a.x, es[x].b.x) < std::min(es[y].a.x, es[y].b.x); });
+  for (size_t x = 0; x < ord.size(); x++) {
+    const E& e = es[ord[x]];
+    double hi = std::max(e.a.x, e.b.x);
+    for (size_t y = x + 1; y < ord.size(); y++) {
+      const E& f = es[ord[y]];
+      if (std::min(f.a.x, f.b.x) > hi) break;
+      if (e.ring == f.ring && ((e.i + 1) % e.n == f.i || (f.i + 1) % f.n == e.i)) {
+        // adjacent: must not be a zero-length edge or fold back onto each other
+        const E& first = (e.i + 1) % e.n == f.i ? e : f;
+        const E& second = (e.i + 1) % e.n == f.i ? f : e;
+        if (first.a.x == first.b.x && first.a.y == first.b.y) return "zero-length edge";
+        if (orientExact(first.a, first.b, second.b) == 0 && la::dot(first.a - first.b, second.b - second.a) > 0) return "adjacent edges fold back";
+        continue;
+      }
+      if (segsMeet(e.a, e.b, f.a, f.b)) return "edges of ring " + std::to_string(e.ring) + " and ring " + std::to_string(f.ring) + " meet";
+    }
+  }
+  for (size_t r = 0; r < rings.size(); r++) {
+    int depth = 0;
+    for (size_t q = 0; q < rings.size(); q++)
+      if (q != r && insideExact((*rings[r].p)[0], *rings[q].p)) depth++;
+    bool ccw = area2Of(*rings[r].p) > 0;
+    if (ccw == rings[r].hole) return "ring " + std::to_string(r) + " has the wrong orientation for its role";
+    if ((depth % 2 == 1) != rings[r].hole) return "ring " + std::to_string(r) + " at nesting depth " + std::to_string(depth) + " has the wrong role";
+  }
+  return "";
 }
 
 struct Ring {
@@ -369,6 +510,15 @@ static bool buildValid(vh::Rng& r, long maxVerts, PolySet& P, std::string& skipW
   if (!(epsEff <= epsMax) || !(epsMax > 0)) {
     skipWhy = "epsilon-not-below-feature-size";
     return false;
+  }
+  {
+    std::vector<RingRef> rr;
+    for (auto& g : B.rings) rr.push_back({&g.p, g.hole});
+    std::string bad = validateExact(rr);
+    if (!bad.empty()) {
+      skipWhy = "GENERATOR-BUG:" + bad;
+      return false;
+    }
   }
   // perturbations that keep the set within epsilon of the exactly valid one
   int degen = r.range(0, 3);  // 0 none, 1 collinear, 2 duplicates, 3 both
@@ -600,9 +750,14 @@ static void validCase(vh::Ctx& c) {
   PolySet P;
   std::string skip;
   if (!buildValid(r, c.iparam("maxVerts", 600), P, skip)) {
-    c.count("skipped_" + skip);
+    if (skip.rfind("GENERATOR-BUG", 0) == 0) {
+      c.count("generator_bugs");
+      c.inconclusive("case " + std::to_string(c.idx) + ": " + skip);
+    } else
+      c.count("skipped_" + skip);
     return;
   }
+  c.count("valid_sets_rechecked_exactly");
   c.count("valid_sets");
   c.count("valid_vertices", P.V);
   c.maxi("max_vertices", P.V);
@@ -633,10 +788,11 @@ static void validCase(vh::Ctx& c) {
     c.count("triangles_negative_area_within_epsilon", v.strictNeg);
     c.count("triangles_between_half_epsilon_and_epsilon_not_decided", v.inBand);
     if (!v.why.empty()) {
+      dumpText(P.polys, P.epsIn);
       c.violation("valid:" + v.why + ":ac" + std::to_string(ac) + (P.h ? ":holes" : ":noholes"),
                   vh::J().s("why", v.why).s("info", v.info).s("api", which ? "TriangulateIdx" : "Triangulate").bo("allowConvex", ac == 1)
                       .s("shapes", P.desc).i("V", P.V).i("h", P.h).i("o", P.o).d("epsilon_in", P.epsIn).d("epsilon_eff", P.epsEff)
-                      .raw("polys", jpolys(P.polys)).raw("labels", which ? vh::jarr(labels, 400) : "\"identity\"").raw("tris", jtris(tris)).str());
+                      .raw("polys", jpolys(P.polys)).raw("labels", which ? vh::jarr(labels, 8000) : "\"identity\"").raw("tris", jtris(tris)).str());
       return;
     }
     // normalise to flattened positions for the convex-path comparison
@@ -951,7 +1107,11 @@ static void reuseCase(vh::Ctx& c) {
       std::string w;
       // alternate big and small inputs so that stale state would be visible
       long mv = (s % 2) ? std::max<long>(8, maxVerts / 20) : maxVerts;
-      if (!buildValid(r, mv, P, w)) { c.count("skipped_" + w); continue; }
+      if (!buildValid(r, mv, P, w)) {
+        if (w.rfind("GENERATOR-BUG", 0) == 0) c.inconclusive("case " + std::to_string(c.idx) + ": " + w);
+        else c.count("skipped_" + w);
+        continue;
+      }
       polys = toIdx(P);
       eps = P.epsIn;
       kind = "valid(" + P.desc.substr(0, 30) + ")";
@@ -1023,11 +1183,143 @@ static void reuseCase(vh::Ctx& c) {
   if (c.idx % 397 == 0) c.sample(vh::J().s("mode", "reuse").i("idx", c.idx).s("sequence", log).str());
 }
 
+
+// --------------------------------------------------------------------- corpus
+// The repo's recorded polygons (test/polygons/*.txt). They are not valid by
+// construction, so: every entry gets the garbage-level oracle (returns, input
+// indices). An entry additionally gets the FULL oracle only if the harness's
+// exact re-check proves it strictly valid (simple, disjoint, consistent
+// nesting) and its epsilon is <= 1% of the smallest distance between
+// non-adjacent edges and of every contour's mean width.
+struct CorpusEntry {
+  std::string name, file;
+  int expected;
+  double eps;
+  Polygons polys;
+};
+static std::vector<CorpusEntry>* gCorpus = nullptr;
+static void loadCorpus() {
+  gCorpus = new std::vector<CorpusEntry>();
+  const char* repo = getenv("VERIF_REPO");
+  std::string base = std::string(repo ? repo : "/repo") + "/test/polygons/";
+  for (const char* fn : {"polygon_corpus.txt", "sponge.txt", "zebra.txt", "zebra3.txt"}) {
+    FILE* f = fopen((base + fn).c_str(), "r");
+    if (!f) continue;
+    char nm[512];
+    while (fscanf(f, "%500s", nm) == 1) {
+      CorpusEntry e;
+      e.name = nm;
+      e.file = fn;
+      int np = 0;
+      if (fscanf(f, "%d %lf %d", &e.expected, &e.eps, &np) != 3) break;
+      for (int i = 0; i < np; i++) {
+        int k = 0;
+        if (fscanf(f, "%d", &k) != 1) break;
+        SimplePolygon sp(k);
+        for (auto& v : sp)
+          if (fscanf(f, "%lf %lf", &v.x, &v.y) != 2) break;
+        e.polys.push_back(sp);
+      }
+      gCorpus->push_back(e);
+    }
+    fclose(f);
+  }
+}
+static double segSegDist(vec2 a, vec2 b, vec2 c, vec2 d) {
+  return std::min({distPointSeg(a, c, d), distPointSeg(b, c, d), distPointSeg(c, a, b), distPointSeg(d, a, b)});
+}
+static void corpusCase(vh::Ctx& c) {
+  if (!gCorpus) loadCorpus();
+  if (gCorpus->empty()) { c.inconclusive("polygon corpus not found under VERIF_REPO/test/polygons"); return; }
+  const CorpusEntry& e = (*gCorpus)[c.idx % gCorpus->size()];
+  int variant = (int)(c.idx / gCorpus->size());  // 0 as recorded, 1 turned by 180 degrees (as the repo's own test does)
+  PolySet P;
+  P.polys = e.polys;
+  if (variant % 2)
+    for (auto& sp : P.polys)
+      for (auto& v : sp) v = -v;
+  P.epsIn = e.eps;
+  for (auto& sp : P.polys) {
+    P.V += (int)sp.size();
+    for (auto& v : sp) P.maxAbs = std::max({P.maxAbs, std::abs(v.x), std::abs(v.y)});
+  }
+  P.epsEff = P.epsIn < 0 ? 1e-12 * P.maxAbs : P.epsIn;
+  P.idx.resize(P.V);
+  for (int i = 0; i < P.V; i++) P.idx[i] = i;
+  c.count("corpus_entries");
+  // can the full oracle be applied?
+  bool full = false;
+  bool finite = true;
+  for (auto& sp : P.polys) {
+    if (sp.size() < 3) finite = false;
+    for (auto& v : sp) finite = finite && std::isfinite(v.x) && std::isfinite(v.y);
+  }
+  if (finite && P.V <= 3000 && !P.polys.empty()) {
+    std::vector<RingRef> rr;
+    for (auto& sp : P.polys) rr.push_back({&sp, area2Of(sp) < 0});
+    if (validateExact(rr).empty()) {
+      double lim = 1e300;
+      struct E { vec2 a, b; int ring, i, n; };
+      std::vector<E> es;
+      for (size_t r = 0; r < P.polys.size(); r++) {
+        auto& sp = P.polys[r];
+        vec2 lo(1e300), hi(-1e300);
+        for (size_t i = 0; i < sp.size(); i++) {
+          es.push_back({sp[i], sp[(i + 1) % sp.size()], (int)r, (int)i, (int)sp.size()});
+          lo = la::min(lo, sp[i]);
+          hi = la::max(hi, sp[i]);
+        }
+        lim = std::min(lim, (double)std::abs(area2Of(sp)) / 2 / std::max(hi.x - lo.x, hi.y - lo.y));
+      }
+      for (size_t x = 0; x < es.size(); x++)
+        for (size_t y = x + 1; y < es.size(); y++) {
+          const E &p = es[x], &q = es[y];
+          if (p.ring == q.ring && ((p.i + 1) % p.n == q.i || (q.i + 1) % q.n == p.i)) continue;
+          lim = std::min(lim, segSegDist(p.a, p.b, q.a, q.b));
+        }
+      if (P.epsEff <= 0.01 * lim) {
+        full = true;
+        for (auto& g : rr) (g.hole ? P.h : P.o)++;
+      }
+    }
+  }
+  c.count(full ? "corpus_entries_proved_valid_full_oracle" : "corpus_entries_garbage_oracle_only");
+  for (int ac = 0; ac < 2; ac++) {
+    std::vector<ivec3> tris;
+    c.site(std::string("Triangulate:corpus") + (ac ? ":allowConvex" : ":earclip"));
+    try {
+      tris = Triangulate(P.polys, P.epsIn, ac == 1);
+    } catch (const std::exception& ex) {
+      c.violation(std::string("corpus:throw:") + demangle(typeid(ex).name()), vh::J().s("entry", e.name).s("file", e.file).s("what", ex.what()).str());
+      return;
+    }
+    c.count((long)tris.size() == e.expected ? "corpus_count_as_recorded" : "corpus_count_differs_from_recording_(observation_only)");
+    if (full) {
+      Verdict v = checkTriangulation(P, P.idx, tris);
+      if (!v.why.empty()) {
+        c.violation("corpus:" + v.why + ":ac" + std::to_string(ac),
+                    vh::J().s("entry", e.name).s("file", e.file).i("turned", variant % 2).s("why", v.why).s("info", v.info).d("epsilon", P.epsIn)
+                        .i("V", P.V).i("h", P.h).i("o", P.o).raw("polys", jpolys(P.polys)).raw("tris", jtris(tris)).str());
+        return;
+      }
+    } else {
+      for (size_t t = 0; t < tris.size(); t++)
+        for (int k = 0; k < 3; k++)
+          if (tris[t][k] < 0 || tris[t][k] >= P.V) {
+            c.violation("corpus:index-not-an-input-index:ac" + std::to_string(ac), vh::J().s("entry", e.name).s("file", e.file).i("index", tris[t][k]).str());
+            return;
+          }
+    }
+  }
+  c.sig("corpus:" + e.file + ":" + e.name + ":" + std::to_string(variant % 2));
+}
+
 void vh_case(vh::Ctx& c) {
   std::string mode = c.param("mode", "valid");
   if (mode == "valid") validCase(c);
   else if (mode == "garbage") garbageCase(c);
   else if (mode == "rings") ringsCase(c);
   else if (mode == "reuse") reuseCase(c);
+  else if (mode == "corpus") corpusCase(c);
   else c.inconclusive("unknown mode " + mode);
 }
